@@ -697,6 +697,15 @@ def run(ctx, report):
                                  % (pk, kstr, npname, ','.join(msig), ' | '.join(','.join(a) for a in want), ent['line']), where(arch, chain),
                                  witness='66 0f d6 c1 renders movq ecx, xmm0' if kstr == '0F D6' else None)
 
+    # 16-bit addressing: the mm/xmm ModRM tables are 32-bit only, so such instructions must be rejected before operands are read
+    for nm_, pfx_ in (('mova#ps#', []), ('#p#addb', [0x66]), ('mov#ups#', [0xF2])):
+        inst = 'mmx 16-bit addressing %s %s' % (nm_, pfx_)
+        if X.dis_mmx_rejected_early(nm_, pfx_, admode=X.afs.u16) is True:
+            R5.ok(inst, sample='%s under 0x67 / 16-bit address size: rejected (no 16-bit mm/xmm tables)' % nm_)
+        else:
+            R5.violation(inst, 'ssefile:admode16', 'MMX/SSE rows are decoded under the 16-bit address size although the register-file selection overwrites the address mode and get_afs has only '
+                         '32-bit tables for mm/xmm: the ModRM/SIB/displacement bytes are read with 32-bit rules (over-read)', where(arch, chain), witness='67 66 0f 6f 04 90 has length 5, decoded with length 6')
+
     # ---------------------------------------------------------------- D6 ModRM byte pre-processing of special register files
     R6 = report.rule('C01.D6', 'control/debug register moves ignore ModRM.mod; segment register numbers 6 and 7 are rejected', floor=20)
     base_mod = dict((E[k], None) for k in ('w8', 'se', 'sw', 'sd', 'wd', 'mmx', 'sg', 'cr', 'dr'))
@@ -742,6 +751,7 @@ def run(ctx, report):
 
 
 MUTANTS = [
+    ('mmx-admode16-accepted', 'miasmx/arch/ia32_arch.py', "                if self.admode == u16:\n                    # 16-bit addressing of MMX/SSE operands is not", "                if False:\n                    # 16-bit addressing of MMX/SSE operands is not", 'C01.D5'),
     ('crdr-mod-honoured', 'miasmx/arch/ia32_arch.py', "                        c |= 0xC0\n", "                        pass\n", 'C01.D6'),
     ('sreg-6-7-decoded', 'miasmx/arch/ia32_arch.py', "                    if m.modifs[sg] and ((c>>3)&7) > 5:", "                    if m.modifs[sg] and ((c>>3)&7) > 7:", 'C01.D6'),
     ('sse-whole-prefix-list', 'miasmx/arch/ia32_arch.py', "            sse_prefix = [_ for _ in read_prefix if _ in mmx_prefixes[1:]]", "            sse_prefix = read_prefix", 'C01.D5'),
